@@ -86,6 +86,16 @@ pub struct Case {
     /// threshold leaves "the positions scoring >= threshold" well defined whatever was buffered before)
     #[serde(default)]
     pub raise: Option<ThrSpec>,
+    /// 0 = the sequence is striped by the library; n > 0 = it is built by hand through `StripedSequence::new` from a
+    /// matrix with n-1 rows more than ceil(L/32) (position p at row p % rows, column p / rows, as `Index` defines)
+    /// whose unused cells hold arbitrary symbols
+    #[serde(default)]
+    pub via_new: u8,
+    /// C03: how the best hit is asked for: 0 = `Scanner::max(self)`; 1 = `Iterator::max` through `&mut Scanner`
+    /// (`scanner.by_ref().max()`: the by-value override is not reached, the order of `Hit` decides);
+    /// 2 = the remaining hits collected and `into_iter().max()`
+    #[serde(default)]
+    pub best_route: u8,
 }
 
 fn next_up(x: f32) -> f32 {
@@ -206,9 +216,11 @@ fn case_strategy(tier: Tier, near_tie: bool) -> BoxedStrategy<Case> {
             prop_oneof![3 => Just(Vec::new()), 1 => proptest::collection::vec((prop_oneof![3 => 1usize..=4, 1 => 5usize..=60], block_strategy()), 1..=3)],
             prop_oneof![3 => Just(0u8), 2 => 1u8..=6],
             prop_oneof![3 => Just(None), 1 => thr_strategy().prop_map(Some)],
+            prop_oneof![6 => Just(0u8), 1 => Just(1u8), 1 => 2u8..=4],
+            prop_oneof![3 => Just(0u8), 1 => Just(1u8), 1 => Just(2u8)],
         ),
     )
-        .prop_map(|(seq, mat, embed, extra_wrap, block, thr, arm, own_buffer, consumed, (alt_blocks, exact_alloc, reconfig, finish, raise))| Case {
+        .prop_map(|(seq, mat, embed, extra_wrap, block, thr, arm, own_buffer, consumed, (alt_blocks, exact_alloc, reconfig, finish, raise, via_new, best_route))| Case {
             seq,
             mat,
             embed,
@@ -223,6 +235,8 @@ fn case_strategy(tier: Tier, near_tie: bool) -> BoxedStrategy<Case> {
             reconfig,
             finish,
             raise,
+            via_new,
+            best_route,
         })
         .boxed()
 }
@@ -247,7 +261,8 @@ fn setup(case: &Case) -> Setup {
     embed_word(&cells, 5, &case.embed, &mut idx);
     let pssm = build_pssm::<Dna>(&case.mat);
     let symbols = syms::<Dna>(&idx);
-    let mut striped: StripedSequence<Dna, U32> = Pipeline::<Dna, _>::generic().stripe(&symbols);
+    let mut striped: StripedSequence<Dna, U32> =
+        if case.via_new > 0 { striped_via_new::<Dna, U32>(&idx, case.via_new as usize - 1, idx.len() as u64 * 13 + 5) } else { Pipeline::<Dna, _>::generic().stripe(&symbols) };
     striped.configure(&pssm);
     if case.extra_wrap > 0 {
         striped.configure_wrap(m - 1 + case.extra_wrap);
@@ -289,6 +304,8 @@ fn classify(case: &Case, s: &Setup, expected: usize, info: &mut CaseInfo) {
     info.class_if(case.mat.rows.iter().any(|r| r[4].0.is_finite()), "finite-wildcard-column");
     info.class_if(s.idx.len() >= 8000, "L>=8000");
     info.class_if(s.rows > 65536, "more-than-65536-rows");
+    info.class_if(case.via_new == 1, "built-by-StripedSequence::new(arbitrary-padding)");
+    info.class_if(case.via_new > 1, "built-by-StripedSequence::new(spare-rows)");
     let wrap = s.striped.wrap();
     if let Some(b) = case.block.resolve(s.rows) {
         let k = (s.rows + b - 1) / b.max(1);
@@ -340,6 +357,8 @@ fn long_cases() -> Vec<Case> {
             exact_alloc: false,
             reconfig: Vec::new(),
             raise: None,
+            via_new: 0,
+            best_route: 0,
             finish: 0,
         });
     }
@@ -594,7 +613,12 @@ fn run_max(case: &Case, s: &Setup, block: &Block, k: usize, reconfigure: bool, r
     if let Some(t2) = raise {
         scanner.threshold(t2);
     }
-    let best = scanner.max().map(|h| (h.position(), h.score()));
+    let best = match case.best_route {
+        1 => scanner.by_ref().max(),
+        2 => scanner.by_ref().collect::<Vec<lightmotif::scan::Hit>>().into_iter().max(),
+        _ => scanner.max(),
+    }
+    .map(|h| (h.position(), h.score()));
     (consumed, best)
 }
 
@@ -604,7 +628,7 @@ impl Sub for Best {
         "best"
     }
     fn rule(&self) -> &'static str {
-        "C02's domain plus near-tie matrices (few distinct cell values +-1e-3) on repeat-rich sequences, k next() calls before max() (0, few, all), in a quarter of the cases threshold() called again with a higher value on the running scanner between those next() calls and max(), the same input under 3 block sizes; oracle: None iff no unconsumed position scores >= t, else the returned position is unconsumed, its score is bit-equal to the reference score of that position and equals the maximum over unconsumed hits; non-trivial = a runner-up within one 8-bit step of the best, or no hit although some position passes the 8-bit pre-filter, or k > 0 with hits left"
+        "C02's domain plus near-tie matrices (few distinct cell values +-1e-3) on repeat-rich sequences, k next() calls before max() (0, few, all), in a quarter of the cases threshold() called again with a higher value on the running scanner between those next() calls and max(), the same input under 3 block sizes, the best hit asked through Scanner::max(self) or (2 in 5) through Iterator::max on &mut Scanner / on the collected hits, where the order of Hit decides; oracle: None iff no unconsumed position scores >= t, else the returned position is unconsumed, its score is bit-equal to the reference score of that position and equals the maximum over unconsumed hits; non-trivial = a runner-up within one 8-bit step of the best, or no hit although some position passes the 8-bit pre-filter, or k > 0 with hits left"
     }
     fn cases(&self, tier: Tier) -> u64 {
         tier.pick(100_000, 3_000_000)
@@ -638,12 +662,17 @@ impl Best {
             .raise
             .as_ref()
             .and_then(|r| resolve_thr(r, &s.r32, s.pssm.min_score(), s.pssm.max_score()))
-            .filter(|&t2| t2 >= t1);
+            .filter(|&t2| t2 >= t1)
+            // (only for Scanner::max itself: the routes that go through next() hand out hits buffered under the
+            // earlier threshold, and what next() owes after a threshold change is not specified)
+            .filter(|_| case.best_route == 0);
         let t = raise.unwrap_or(t1);
         let hits: Vec<usize> = (0..n).filter(|&i| s.r32[i] >= t).collect();
         let mut info = CaseInfo::new();
         classify(case, &s, hits.len(), &mut info);
         info.class_if(case.consumed > 0, "k>0");
+        info.class_if(case.best_route == 1, "best-through-&mut-Scanner(Iterator::max,Ord-of-Hit)");
+        info.class_if(case.best_route == 2, "best-of-collected-hits(Ord-of-Hit)");
         info.class_if(raise.map_or(false, |t2| t2 > t1), "threshold-raised-before-max");
         info.class_if(raise.map_or(false, |t2| t2 > t1) && case.consumed > 0 && (0..n).any(|i| s.r32[i] >= t1 && s.r32[i] < t), "threshold-raised-above-earlier-hits");
         // non-triviality
